@@ -68,7 +68,7 @@ func New(rg *mon.Rng, opt Opts) *G {
 
 func (g *G) feat(k string) { g.Feat[k]++ }
 
-var hostileBases = []string{"", "my db", "a.b", `q"t`, `b\s`, "nl\nx", "1st", "é日", "select", "Time", "x'y", "FROM", "a-b", "$p", "tab\tx", "/re/", "with space ", "ünï", "true", "Or", "distinct", "DISTINCT", "now", "time", "all", "key", "temp_\u212a", "\u0130d", "_series", "_fieldKeys", "_tagKeys", "_tags", "_measurements", "_name", "_tagKey", "_internal", strings.Repeat("n", 63), strings.Repeat("L", 64), strings.Repeat("w", 65), strings.Repeat("ab", 100)}
+var hostileBases = []string{"", "my db", "a.b", `q"t`, `b\s`, "nl\nx", "1st", "é日", "select", "Time", "x'y", "FROM", "a-b", "$p", "tab\tx", "/re/", "with space ", "ünï", "true", "Or", "distinct", "DISTINCT", "now", "time", "all", "key", "temp_\u212a", "\u0130d", "cpu\uff13", "host_\u0663", "v\u0967x", "_series", "_fieldKeys", "_tagKeys", "_tags", "_measurements", "_name", "_tagKey", "_internal", strings.Repeat("n", 63), strings.Repeat("L", 64), strings.Repeat("w", 65), strings.Repeat("ab", 100)}
 
 // Name returns a fresh name for a slot; every name in one statement differs.
 func (g *G) Name(slot string) string {
@@ -81,7 +81,7 @@ func (g *G) Name(slot string) string {
 	}
 	if g.Opt.Hostile && g.Rg.P(0.6) {
 		s = hostileBases[g.Rg.Intn(len(hostileBases))]
-		if s == "" && slot != "m" && slot != "t" && slot != "db" && slot != "rp" {
+		if s == "" && slot != "m" && slot != "t" && slot != "db" && slot != "rp" && slot != "fn" {
 			s = "e"
 		}
 		if g.Rg.P(0.7) {
